@@ -322,8 +322,72 @@ def rule_trio_checkpoint(ctx: Ctx) -> RuleResult:
     return rr
 
 
+def rule_presence(ctx: Ctx) -> RuleResult:
+    """remove_alarm / remove_watch_file / remove_enter_idle answer 'did it exist'.  Where the registry of an event
+    loop stores plain integers (file descriptors, counters - 0 is a valid one: stdin) the lookup result must be
+    tested with `in` / `is not None`, not by truthiness: `if fd := handles.pop(h, None):` forgets fd 0."""
+    p = ctx.p
+    rr = RuleResult("TRUTHY", "C13.7", "a registry entry that can be the integer 0 (a file descriptor, a counter) is detected by `in` / `is not None`, never by truthiness", floor=3)
+    for key, cq in LOOPS.items():
+        C = p.cls(cq)
+        # registries whose stored values are integers: self.D[k] = <parameter annotated int> or an int counter
+        int_regs = {}
+        for fi in C.methods.values():
+            ann = {a.arg: ast.unparse(a.annotation) for a in fi.node.args.args if a.annotation is not None}
+            for n in fi.own_nodes():
+                if isinstance(n, ast.Assign) and len(n.targets) == 1 and isinstance(n.targets[0], ast.Subscript) and isinstance(n.targets[0].value, ast.Attribute) and isinstance(n.targets[0].value.value, ast.Name) and n.targets[0].value.value.id == fi.self_name:
+                    reg = n.targets[0].value.attr
+                    v = n.value
+                    if isinstance(v, ast.Name) and ann.get(v.id) == "int":
+                        int_regs[reg] = f"{fi.name}() stores its int parameter `{v.id}`"
+        for m in ("remove_alarm", "remove_watch_file", "remove_enter_idle"):
+            fi = C.methods.get(m)
+            if fi is None:
+                continue
+            du = DefUse(fi)
+
+            def lookup_reg(e):
+                if isinstance(e, ast.NamedExpr):
+                    return lookup_reg(e.value)
+                if isinstance(e, ast.Call) and isinstance(e.func, ast.Attribute) and e.func.attr in ("pop", "get") and isinstance(e.func.value, ast.Attribute) and isinstance(e.func.value.value, ast.Name) and e.func.value.value.id == fi.self_name:
+                    return e.func.value.attr
+                return None
+
+            def bool_operands(t):
+                if isinstance(t, ast.BoolOp):
+                    for v in t.values:
+                        yield from bool_operands(v)
+                elif isinstance(t, ast.UnaryOp) and isinstance(t.op, ast.Not):
+                    yield from bool_operands(t.operand)
+                else:
+                    yield t
+
+            for node in du.cfg.nodes:
+                if node.kind != "test":
+                    continue
+                for o in bool_operands(node.ast):
+                    regs = set()
+                    r = lookup_reg(o)
+                    if r:
+                        regs.add(r)
+                    elif isinstance(o, ast.Name):
+                        for v, how, dn in du.reaching(o.id, node):
+                            r = lookup_reg(v) if isinstance(v, ast.AST) else None
+                            if r:
+                                regs.add(r)
+                    for r in regs:
+                        rr.inst(f"{short(fi)}:{norm(node.ast, 40)}", True, {"loop": key, "method": m, "test": norm(node.ast, 60), "registry": r, "stores_int": r in int_regs})
+                        if r in int_regs:
+                            rr.add(finding("TRUTHY", fi, node.stmt, f"`{norm(node.ast, 60)}` decides whether the entry existed by the truthiness of the value stored in self.{r}, but {int_regs[r]}: 0 (standard input) is a valid descriptor, it is taken for 'not registered', {m}() returns False and the reader stays installed", construct=f"truthiness of an int registry entry: {norm(node.ast, 60)}"))
+            # `(x := reg.pop(k, None)) is not None` and `k in reg` are the accepted forms: count them as instances
+            for node in du.cfg.nodes:
+                if node.kind == "test" and any(isinstance(c, ast.Compare) and isinstance(c.ops[0], (ast.IsNot, ast.Is, ast.In, ast.NotIn)) for c in ast.walk(node.ast)):
+                    rr.inst(f"{short(fi)}:{norm(node.ast, 40)}", True)
+    return rr
+
+
 def run(ctx: Ctx):
-    return [rule_wrap(ctx), rule_snap(ctx), rule_idle_arming(ctx), rule_remove_returns(ctx), rule_select_zmq(ctx), rule_trio_checkpoint(ctx)]
+    return [rule_wrap(ctx), rule_snap(ctx), rule_idle_arming(ctx), rule_remove_returns(ctx), rule_select_zmq(ctx), rule_trio_checkpoint(ctx), rule_presence(ctx)]
 
 
 from ..mutants import Mut  # noqa: E402
@@ -331,6 +395,7 @@ from ..mutants import Mut  # noqa: E402
 _S = "urwid/event_loop/select_loop.py"
 _A = "urwid/event_loop/asyncio_loop.py"
 MUTANTS = [
+    Mut("tornado-fd-zero-not-removed", "urwid/event_loop/tornado_loop.py", "TornadoEventLoop.remove_watch_file", "if (fd := self._watch_handles.pop(handle, None)) is not None:", "if fd := self._watch_handles.pop(handle, None):", "TRUTHY|event_loop.tornado_loop.TornadoEventLoop.remove_watch_file"),
     Mut("select-idle-live-dict", _S, "SelectEventLoop._entering_idle", "for callback in list(self._idle_callbacks.values()):", "for callback in self._idle_callbacks.values():", "SNAP|"),
     Mut("select-remove-alarm-conditional-heapify", _S, "SelectEventLoop.remove_alarm", "            self._alarms.remove(handle)\n            heapq.heapify(self._alarms)\n", "            self._alarms.remove(handle)\n", "SIB|"),
     Mut("asyncio-exc-not-cleared", _A, "AsyncioEventLoop.run", "            exc = self._exc\n            self._exc = None\n", "            exc = self._exc\n", ("ORDER|", "PASS|", "WRAP|")),
